@@ -6,6 +6,8 @@ CONSTANTS
   OpsMenu <- MCOpsMenu
   RecallMenu <- MCRecallMenu
   MatchArms <- MCMatchArms
+  ExtraSimple = {}
+  WithElif = TRUE
   StrayBase <- MCStrayBase
   StrayOps <- MCStrayOpsQuick
   Enumerate = TRUE
